@@ -146,11 +146,19 @@ func (r *runner) violate(kind, desc string, replay interface{}) {
 
 // runPair runs every option set for one (geometry, target) pair.
 func (r *runner) runPair(g *geom, idx *s2.ShapeIndex, t *tgt, nopts int, wantT bool) {
+	r.runPairWith(g, idx, t, nopts, wantT, nil)
+}
+
+// runPairWith: as runPair; a non-nil mk builds the option sets from the sorted candidates.
+func (r *runner) runPairWith(g *geom, idx *s2.ShapeIndex, t *tgt, nopts int, wantT bool, mk func(all []cand) []qopts) {
 	c := r.c
 	o := order{t.far}
 	edges, interiors := candidates(g, t)
 	all := eligible(o, edges, interiors, qopts{interiors: true})
 	qs := optionSets(r.rng, o, all, nopts)
+	if mk != nil {
+		qs = mk(all)
+	}
 	dir := "closest"
 	if t.far {
 		dir = "furthest"
@@ -433,8 +441,9 @@ func addInt(v interface{}, n int) int {
 func run(c *vkit.Collector, rng *vkit.Rng, budget int) {
 	r := &runner{c: c, rng: rng}
 	r.fixed()
+	r.approxStream(budget)
 	kinds := []string{"point", "edge", "cell", "index"}
-	nIdx := 34 * budget
+	nIdx := 60 * budget
 	for i := 0; i < nIdx; i++ {
 		n := edgeCounts[rng.Intn(len(edgeCounts))]
 		if i%3 == 0 {
@@ -460,12 +469,55 @@ func run(c *vkit.Collector, rng *vkit.Rng, budget int) {
 			kind := kinds[(i+j)%4]
 			far := rng.Intn(3) == 0
 			t := genTarget(rng, g, far, kind)
-			wantT := g.nedges <= 130 && (i+j)%3 == 0
+			wantT := g.nedges <= 130 && (i+j)%5 == 0
 			nopts := 12
 			if kind == "index" && g.nedges > 120 {
 				nopts = 8
 			}
 			r.runPair(g, idx, t, nopts, wantT)
+		}
+	}
+}
+
+// approxStream: large indexes queried with ShapeIndex targets and a permitted error of the order
+// of the distances involved, so that the targets' approximate cell/edge distances, the
+// conservative cell distances and duplicate avoidance decide the outcome.
+func (r *runner) approxStream(budget int) {
+	rng := r.rng
+	for i := 0; i < 30*budget; i++ {
+		n := []int{64, 100, 180, 320}[rng.Intn(4)]
+		g := genGeom(rng, n, true)
+		idx := g.index()
+		rad := g.radius
+		if rad > 1 {
+			rad = 1
+		}
+		for j := 0; j < 3; j++ {
+			far := rng.Intn(4) == 0
+			c := pointIn(rng, g.center, math.Min(math.Pi, 2*g.radius))
+			tn := []int{3, 6, 12, 28, 40}[rng.Intn(5)]
+			tg := &geom{center: c, radius: rad}
+			if rng.Bool() {
+				tg.add(walk(rng, c, rad, tn))
+				tg.desc = "walk"
+			} else {
+				tg.add(cloud(rng, c, rad, tn))
+				tg.desc = "cloud"
+			}
+			t := &tgt{kind: "index", far: far, tg: tg, tidx: tg.index(), desc: fmt.Sprintf("index{%s n=%d near}", tg.desc, tg.nedges)}
+			r.c.Class("stream:approx-index")
+			r.runPairWith(g, idx, t, 0, false, func(all []cand) []qopts {
+				var qs []qopts
+				for _, f := range []float64{0.1, 0.5, 1.5} {
+					e := chordOf(f * rad)
+					qs = append(qs, qopts{k: 1, maxErr: e, interiors: true}, qopts{k: []int{2, 5, 0}[rng.Intn(3)], maxErr: e, interiors: rng.Bool()})
+					if len(all) > 4 {
+						lim := all[len(all)/3].d
+						qs = append(qs, qopts{k: []int{1, 3, 0}[rng.Intn(3)], maxErr: e, interiors: true, hasLimit: true, limit: lim})
+					}
+				}
+				return qs
+			})
 		}
 	}
 }
